@@ -79,3 +79,38 @@ package rp
 //@   requires valid(r) && valid(jws)
 //@   ensures accepted: err == nil ==> keyAccepted(jws, ite(callres("oidc.GetKeyIDAndAlg", 1) == "", old(r.defaultAlg), callres("oidc.GetKeyIDAndAlg", 1)), bstr(result0))
 //@   ensures fail-closed: err != nil ==> result0 == nil
+
+// ---- C17: state cookie and PKCE on the relying party ----
+//@ func rp.tryReadStateCookie
+//@   requires valid(r) && valid(rp) && valid(w)
+//@   ensures fail-empty: err != nil ==> state == ""
+//@   ensures checked-against-cookie: err == nil && rp.CookieHandler() != nil ==> called("httphelper.CookieHandler.CheckQueryCookie")
+//@        && callres("httphelper.CookieHandler.CheckQueryCookie", 1) == nil && state == callres("httphelper.CookieHandler.CheckQueryCookie", 0)
+//@        && callarg("httphelper.CookieHandler.CheckQueryCookie", 2) == "state"
+
+// The verifier is stored in the signed cookie "pkce" and the challenge is its S256 hash.
+//@ func rp.GenerateAndStoreCodeChallenge
+//@   requires valid(rp) && valid(w)
+//@   ensures challenge-of-stored-verifier: err == nil ==> callres("httphelper.CookieHandler.SetCookie", 0) == nil
+//@        && callarg("httphelper.CookieHandler.SetCookie", 2) == "pkce"
+//@        && result0 == hashString(256, callarg("httphelper.CookieHandler.SetCookie", 3), false)
+
+// Callback handler: the token request is sent, and the application callback invoked, only after the
+// state check succeeded; with PKCE the verifier sent is the one read from the signed cookie.
+//@ func rp.CodeExchangeHandler$1
+//@   requires valid(w) && valid(r)
+//@   ensures exchange-only-with-state: called("rp.CodeExchange") ==> callres("rp.tryReadStateCookie", 1) == nil
+//@   ensures pkce-verifier-from-cookie: called("rp.CodeExchange") && rp.IsPKCE() ==> called("httphelper.CookieHandler.CheckCookie")
+//@        && callres("httphelper.CookieHandler.CheckCookie", 1) == nil && callarg("httphelper.CookieHandler.CheckCookie", 2) == "pkce"
+//@        && callarg("rp.WithCodeVerifier", 0) == callres("httphelper.CookieHandler.CheckCookie", 0)
+//@   ensures callback-only-after-exchange: called("dyn:callback") ==> called("rp.CodeExchange") && callres("rp.CodeExchange", 1) == nil
+//@        && callres("rp.tryReadStateCookie", 1) == nil
+
+// Start handler: one state value goes into the cookie and into the authorization URL; with PKCE the
+// challenge in the URL is the one whose verifier was stored.
+//@ func rp.AuthURLHandler$1
+//@   requires valid(w) && valid(r)
+//@   ensures one-state: called("rp.AuthURL") ==> callarg("rp.AuthURL", 0) == callres("dyn:stateFn", 0)
+//@        && callarg("rp.trySetStateCookie", 1) == callres("dyn:stateFn", 0) && callres("rp.trySetStateCookie", 0) == nil
+//@   ensures pkce-challenge: called("rp.AuthURL") && rp.IsPKCE() ==> called("rp.GenerateAndStoreCodeChallenge") && callres("rp.GenerateAndStoreCodeChallenge", 1) == nil
+//@        && callarg("rp.WithCodeChallenge", 0) == callres("rp.GenerateAndStoreCodeChallenge", 0)
